@@ -1,6 +1,6 @@
 """Engine `mem` - C18: the uncached data memory (as built by RiscvArchitecturalState) and the TOY memory
 (as built by ToyArchitecturalState) against the flat little-endian reference under access histories."""
-from ..common import rng_for, h64, M32
+from ..common import guarded, rng_for, h64, M32
 from ..refmodels.refcache import FlatMem
 
 RULE = {
@@ -161,12 +161,12 @@ def run_shard(spec, res):
     rng = rng_for("C18", spec["tier"], spec["seed"], spec["kind"], spec["shard"])
     if spec["kind"] == "directed":
         for c in directed():
-            run_case("C18", c, res)
+            guarded(run_case, "C18", c, res)
             res.evaluations += 1
         return
     for it in range(spec["n"]):
         case = gen_rv(rng, rng.randint(60, 150)) if spec["kind"] == "rv" else gen_toy(rng, rng.randint(40, 120))
-        run_case("C18", case, res)
+        guarded(run_case, "C18", case, res)
         res.evaluations += 1
         if it < 1:
             res.sample({"kind": case["kind"], "ops": case["ops"][:10], "n_ops": len(case["ops"])}, 3)
